@@ -193,6 +193,14 @@ def cancellation_edges(ctx, rep, rule):
                       "when the enclosing scheduler times out or aborts, the jobs of this nested scheduler keep "
                       "running after run() has returned, and receive co_shutdown while still running",
                       trace(st))
+        for e in an.events('SHUT'):
+            if e.data['phase'] == 'Live':
+                rep.fail(rule, "%s shutdown while jobs are alive (%s path)" % (
+                    e.where, "cancellation" if e.st.a('cdelivered') else "normal"), _func_of(ctx, e.node) or f.qualname,
+                         "`%s` awaited while the job tasks of this run have not been cancelled and awaited"
+                         % src(e.node),
+                         "jobs receive co_shutdown() while jobs of the same scheduler are still running "
+                         "(e.g. when the enclosing scheduler cancels this nested run)", trace(e.st))
         rep.need(rule + ":" + cls.name, n, 3, "cancellation edges of the nested run")
     # the broadcast owns the shutdown tasks
     an, ip, out = ctx.broadcast(gen_cancel=True)
